@@ -143,6 +143,51 @@ def NetInterface.zero : NetInterface := { Index := 0, MTU := 0, Name := [], Hard
 /-- `crc32.ChecksumIEEE` (the bitwise model of Model/Dhcp.lean; the standard library is trusted). -/
 def crc32IEEE (b : Bytes) : UInt32 := UInt32.ofNat (PsaDhcp.crc32 b)
 
+/-! `map[string]T`: an association list with at most one entry per key (translated code reads with `mapGet?`,
+writes with `mapSet`/`mapDel`, and never observes the iteration order). -/
+abbrev Map (α : Type) := List (Bytes × α)
+
+def mapGet? {α : Type} (m : Map α) (k : Bytes) : Option α := (m.find? (fun e => e.1 == k)).map (·.2)
+def mapDel {α : Type} (m : Map α) (k : Bytes) : Map α := m.filter (fun e => e.1 != k)
+def mapSet {α : Type} (m : Map α) (k : Bytes) (v : α) : Map α := (k, v) :: mapDel m k
+
+/-! `fmt.Sprintf` verbs -/
+def hexDigit (n : Nat) : UInt8 := if n < 10 then UInt8.ofNat (48 + n) else UInt8.ofNat (87 + n)
+
+/-- `%02x` of a byte -/
+def fmtHex02 (b : UInt8) : Bytes := [hexDigit (b.toNat / 16), hexDigit (b.toNat % 16)]
+
+/-- `%x` of an unsigned value: no leading zeros, `0` for zero -/
+def fmtHex (n : Nat) : Bytes := (Nat.toDigits 16 n).map (fun ch => UInt8.ofNat ch.toNat)
+
+/-- `%d` -/
+def fmtDec (i : Int) : Bytes :=
+  (if i < 0 then [45] else []) ++ (Nat.toDigits 10 i.natAbs).map (fun ch => UInt8.ofNat ch.toNat)
+
+/-- `uint32(d.Seconds())` for a `time.Duration` of `d` nanoseconds.  Go computes `float64(sec) + float64(nsec)/1e9`
+and truncates; this integer reading agrees for all `d ≥ 0` whose fractional part does not round up to a whole second
+in a 53-bit mantissa (every duration below 2^22 s, and every whole-second duration) — trusted, see DESIGN.md §13.3. -/
+def durSecondsU32 (d : Int) : UInt32 := u32OfInt (Int.tdiv d 1000000000)
+
+/-! Pointers to records of one type, inside the package that owns them: `nil` or an index into the list of all
+records allocated so far (the heap).  A dereference of `nil` is a Go panic. -/
+abbrev Ptr := Option Nat
+
+def heapGet {α : Type} (p : Ptr) (site : String) : StateT (List α) R α := fun h =>
+  match p with
+  | none => .error (.panic site)
+  | some i => match h[i]? with
+    | some v => .ok (v, h)
+    | none => .error (.panic site)
+
+def heapModify {α : Type} (p : Ptr) (f : α → α) (site : String) : StateT (List α) R Unit := fun h =>
+  match p with
+  | none => .error (.panic site)
+  | some i => if i < h.length then .ok ((), h.modify i f) else .error (.panic site)
+
+/-- `&T{...}`: a fresh record -/
+def heapAlloc {α : Type} (v : α) : StateT (List α) R Ptr := fun h => .ok (some h.length, h ++ [v])
+
 /-- A `*clients.client` as code outside package `clients` sees it: which record it is (pointer identity) and
 the two fields its accessors `Uip()` / `LeasedUntil()` return, read when the pointer was obtained.  (Trusted:
 the translated callers use the accessors before their next call into the table — see DESIGN.md §13.) -/
